@@ -605,6 +605,45 @@ func runC04(c *ctx) {
 			c.disagree(Disagreement{Kind: "whitespace-dependent-parse", Prog: glued.String() + "   vs   " + spaced, Go: g2.outcome, Model: g1.outcome + " (the spaced text)"})
 		}
 	}
+	// the lexer's tables, compared behaviourally with the Lean lexer (not by reading the source): every pair of
+	// punctuation characters between two operands and on its own, every ASCII character as a separator, words around the
+	// keywords, and every letter as a regex flag
+	punct := "!\"#$%&'()*+,-./:;<=>?@[\\]^_`{|}~"
+	c.rep.Exhaustive = append(c.rep.Exhaustive, "all pairs of ASCII punctuation as operator text; all ASCII characters as separators; all letters and pairs of i,m,s as regex flags")
+	for i := 0; i < len(punct); i++ {
+		for j := -1; j < len(punct); j++ {
+			sym := string(punct[i])
+			if j >= 0 {
+				sym += string(punct[j])
+			}
+			c.parseCompare("a "+sym+" b", "symbol-sweep")
+			c.parseCompare("a"+sym+"b", "symbol-sweep")
+			c.parseCompare(sym, "symbol-sweep")
+			c.parseCompare(sym+" b", "symbol-sweep")
+		}
+	}
+	for cp := 0; cp < 0x100; cp++ {
+		sep := string(rune(cp))
+		c.parseCompare("a"+sep+"+"+sep+"b", "separator-sweep")
+		c.parseCompare("[1,"+sep+"2]", "separator-sweep")
+	}
+	for _, sep := range []string{"\u00a0", "\u2028", "\u3000", "\ufeff", "\u0085", "\u200b"} {
+		c.parseCompare("a"+sep+"+"+sep+"b", "separator-sweep")
+	}
+	for _, w := range []string{"and", "or", "in", "true", "false", "null", "And", "OR", "In", "TRUE", "nul", "nulll", "an", "andd", "o", "i", "inn", "tru", "truee", "fals", "not", "function", "λ", "if", "then", "else"} {
+		c.parseCompare(w, "keyword-sweep")
+		c.parseCompare("a "+w+" b", "keyword-sweep")
+		c.parseCompare("a."+w, "keyword-sweep")
+		c.parseCompare(w+"(1)", "keyword-sweep")
+	}
+	for cp := 'A'; cp <= 'z'; cp++ {
+		c.parseCompare("/a/"+string(cp), "regex-flag-sweep")
+		c.parseCompare("/a/i"+string(cp)+" ", "regex-flag-sweep")
+	}
+	for _, fl := range []string{"im", "mi", "is", "si", "ms", "sm", "ims", "smi", "ii", "iim", "imsi", "i m", "i/", "0", "_"} {
+		c.parseCompare("/a/"+fl, "regex-flag-sweep")
+		c.parseCompare("x ~> /a/"+fl, "regex-flag-sweep")
+	}
 	// the lexical clauses: quotes, regex vs division, keywords as names
 	for _, p := range [][2]string{{`"a b"`, `'a b'`}, {`"q\"q"`, `'q"q'`}, {`"\u00e9"`, `'é'`}} {
 		g1, g2 := goParse(p[0]), goParse(p[1])
@@ -756,6 +795,33 @@ func runC11(c *ctx) {
 			if r3.outcome != exp {
 				c.disagree(Disagreement{Kind: "json-denotation-depends-on-input", Prog: text, Input: in, Go: trunc(r3.outcome, 300), Model: trunc(exp, 300)})
 				return
+			}
+		}
+	}
+	// every single-character escape \c for c over all of ASCII and a few wider characters: the escape table of the
+	// implementation is compared behaviourally (with encoding/json where the text is JSON, with the Lean model always),
+	// not by reading its source
+	c.rep.Exhaustive = append(c.rep.Exhaustive, "every escape \\c, c in U+0000..U+007F and samples beyond, in both quote styles")
+	for cp := 0; cp < 0x80+8; cp++ {
+		ch := string(rune(cp))
+		if cp >= 0x80 {
+			ch = []string{"é", "😀", "\u2028", "\u00a0", "ß", "\ufffd", "\u0100", "中"}[cp-0x80]
+		}
+		for _, q := range []string{"\"", "'"} {
+			if ch == q {
+				continue
+			}
+			text := q + "a\\" + ch + "z" + q
+			c.parseCompare(text, "escape-sweep")
+			checkText(text, "escape-sweep")
+			if q == "\"" {
+				// where encoding/json rejects the text the implementation must reject it too
+				var tmp interface{}
+				if jerr := json.Unmarshal([]byte(text), &tmp); jerr != nil {
+					if _, cerr := jsonata.Compile(text); cerr == nil {
+						c.disagree(Disagreement{Kind: "invalid-escape-accepted", Prog: text, Go: "compiles", Model: "encoding/json: " + jerr.Error()})
+					}
+				}
 			}
 		}
 	}
